@@ -524,4 +524,67 @@ theorem sigmainv_converged (p : Par ℝ) (E : Ell ℝ) (xi eta : ℝ) (hnd : (si
   rw [this] at hl
   exact hl
 
+/-! ### the special cases of `Forward` / `Reverse` -/
+
+theorem ninety_real : (RealLike.ofNat 90 : ℝ) = 90 := by show ((90 : ℕ) : ℝ) = 90; norm_num
+
+/-- **which way `Forward` obtains the Thompson coordinates** (every kernel): the pole special case exactly for `lat = 90` (then `u = K`, `v = 0`,
+    `γ = lon`, `k = 1`), the branch-point special case exactly at the single point `lat = 0 ∧ lon = 90(1 − e)` (then `u = 0`, `v = K'`; this is the
+    comparison seeded change C06B turned into `≥`), Newton's method otherwise (then `(u, v)` is what `zetainv(taupf(τ), λ)` returns) -/
+theorem fwdKernel_cases (p : Par ℝ) (E : Ell ℝ) (lat lon tau : ℝ) :
+    let r := fwdKernel p E lat lon tau
+    (r.via = Via.pole ↔ lat = 90) ∧
+    (r.via = Via.branchPoint ↔ lat ≠ 90 ∧ lat = 0 ∧ lon = 90 * (1 - p.e)) ∧
+    (lat = 90 → r.u = E.Ku ∧ r.v = 0 ∧ r.gamma = lon ∧ r.k = 1) ∧
+    (lat ≠ 90 → lat = 0 → lon = 90 * (1 - p.e) → r.u = 0 ∧ r.v = E.Kv) ∧
+    (r.via = Via.newton → r.u = (zetainv p E (TM.taupf tau p.e) (lon * degree)).1.u ∧ r.v = (zetainv p E (TM.taupf tau p.e) (lon * degree)).1.v ∧
+      r.steps ≤ p.numit) := by
+  intro r
+  by_cases h90 : lat = 90
+  · simp [r, fwdKernel, h90, ninety_real, eqb_real]
+  · by_cases hb : lat = 0 ∧ lon = 90 * (1 - p.e)
+    · obtain ⟨h0, hl⟩ := hb
+      simp [r, fwdKernel, ninety_real, eqb_real, h0, hl, zero_real, one_real]
+    · have hb' : ¬ (lat = 0 ∧ lon = 90 * (1 - p.e)) := hb
+      have hc : (decide (lat = 0) && decide (lon = 90 * (1 - p.e))) = false := by
+        simpa using hb'
+      have hsteps := zetainv_cap p E (TM.taupf tau p.e) (lon * degree)
+      simp [r, fwdKernel, h90, ninety_real, eqb_real, zero_real, one_real, hc]
+      refine ⟨?_, ?_, hsteps⟩
+      · intro h0 hl; exact absurd ⟨h0, hl⟩ hb'
+      · intro h0 hl; exact absurd ⟨h0, hl⟩ hb'
+
+/-- **`Reverse`**: the branch-point special case exactly at `ξ = 0 ∧ η = K' − E'`; otherwise `(u, v)` is what `sigmainv` returns; the pole output
+    (`lat = 90`, `lon = γ = 0`, `k = 1`) exactly when the Thompson coordinates are `(K, 0)` -/
+theorem revKernel_cases (p : Par ℝ) (E : Ell ℝ) (xi eta : ℝ) :
+    let r := revKernel p E xi eta
+    ((xi = 0 ∧ eta = E.KEv) → r.u = 0 ∧ r.v = E.Kv) ∧
+    (¬ (xi = 0 ∧ eta = E.KEv) → r.u = (sigmainv p E xi eta).1.u ∧ r.v = (sigmainv p E xi eta).1.v ∧ r.steps ≤ p.numit) ∧
+    (r.via = Via.pole ↔ (r.v = 0 ∧ r.u = E.Ku)) ∧
+    (r.via = Via.pole → r.p = 90 ∧ r.q = 0 ∧ r.gamma = 0 ∧ r.k = 1) := by
+  intro r
+  have hsteps := sigmainv_cap p E xi eta
+  by_cases hb : xi = 0 ∧ eta = E.KEv
+  · obtain ⟨h0, hl⟩ := hb
+    by_cases hp : (0 : ℝ) = E.Ku ∧ E.Kv = 0
+    · simp [r, revKernel, h0, hl, eqb_real, zero_real, one_real, ninety_real, hp.1.symm, hp.2]
+    · have : ¬ (E.Kv = 0 ∧ (0 : ℝ) = E.Ku) := fun h => hp ⟨h.2, h.1⟩
+      simp [r, revKernel, h0, hl, eqb_real, zero_real, one_real, ninety_real]
+      by_cases hk : E.Kv = 0
+      · by_cases hk2 : (0 : ℝ) = E.Ku
+        · exact absurd ⟨hk, hk2⟩ this
+        · simp [hk, hk2]
+      · simp [hk]
+  · have hc : (decide (xi = 0) && decide (eta = E.KEv)) = false := by simpa using hb
+    simp only [r, revKernel, eqb_real, zero_real, hc, Bool.false_eq_true, if_false]
+    by_cases hp : (sigmainv p E xi eta).1.v = 0 ∧ (sigmainv p E xi eta).1.u = E.Ku
+    · simp [hp.1, hp.2, hb, hsteps, ninety_real, one_real]
+    · have hd : (!decide ((sigmainv p E xi eta).1.v = 0) || !decide ((sigmainv p E xi eta).1.u = E.Ku)) = true := by
+        by_cases h1 : (sigmainv p E xi eta).1.v = 0
+        · have h2 : (sigmainv p E xi eta).1.u ≠ E.Ku := fun h => hp ⟨h1, h⟩
+          simp [h1, h2]
+        · simp [h1]
+      simp [hd, hb, hsteps]
+      intro h1 h2; exact absurd ⟨h1, h2⟩ hp
+
 end GeoVerif.Proofs.TMX
